@@ -64,3 +64,63 @@ def deny_overrides(sc):
         return None
     matching = [p for p, m in zip(pols, mv) if m == 'T']
     return bool(matching) and all(p.effect == 'allow' for p in matching)
+
+
+# ---------------------------------------------------------------------------------------------
+# log capture
+# ---------------------------------------------------------------------------------------------
+import logging
+
+
+class Capture(logging.Handler):
+    def __init__(self):
+        super().__init__(level=logging.DEBUG)
+        self.records = []
+
+    def emit(self, record):
+        self.records.append(record)
+
+
+class capture_logs:
+    """context manager collecting records of the vakt.audit and vakt.guard loggers"""
+
+    def __enter__(self):
+        self.audit = Capture()
+        self.guard = Capture()
+        self.la = logging.getLogger('vakt.audit')
+        self.lg = logging.getLogger('vakt.guard')
+        self.saved = (self.la.level, self.lg.level, self.la.propagate, self.lg.propagate)
+        self.la.setLevel(logging.DEBUG)
+        self.lg.setLevel(logging.DEBUG)
+        self.la.propagate = False
+        self.lg.propagate = False
+        self.la.addHandler(self.audit)
+        self.lg.addHandler(self.guard)
+        return self
+
+    def __exit__(self, *a):
+        self.la.removeHandler(self.audit)
+        self.lg.removeHandler(self.guard)
+        self.la.setLevel(self.saved[0])
+        self.lg.setLevel(self.saved[1])
+        self.la.propagate = self.saved[2]
+        self.lg.propagate = self.saved[3]
+        return False
+
+    def decision_logs(self):
+        out = []
+        for r in self.guard.records:
+            if r.levelno == logging.INFO and isinstance(r.msg, str):
+                if r.msg.startswith('Incoming Inquiry was allowed'):
+                    out.append('allowed')
+                elif r.msg.startswith('Incoming Inquiry was rejected'):
+                    out.append('rejected')
+        return out
+
+
+def snapshot_policy(p):
+    return specs.s_any(vars(p))
+
+
+def snapshot_inquiry(q):
+    return specs.s_any(vars(q))
